@@ -24,11 +24,15 @@ def _extra(ctx, spec):
 
 PROP = dict(
     level='proof',
-    regen=['consts'],
+    regen=['consts', 'go2lean:basetype'],
+    go2lean_diff=['Basetype'],
     extra=_extra,
-    theorems=['Fit.C06.C06_size_eq_len', 'Fit.C06.C06_marshal_total', 'Fit.C06.C06_marshal_bytes', 'Fit.C06.C06_unmarshal_marshal_partial', 'Fit.C06.C06_unmarshal_marshal_full_fails', 'Fit.C06.C06_norm_id', 'Fit.C06.C06_norm_bool', 'Fit.C06.C06_norm_string', 'Fit.C06.C06_norm_strings', 'Fit.C06.C06_unmarshal_guard', 'Fit.C06.C06_unmarshal_no_panic', 'Fit.C06.C06_unmarshal_err_iff', 'Fit.C06.C06_tag', 'Fit.C06.C06_no_cross_type', 'Fit.C06.C06_any_roundtrip', 'Fit.C06.C06_align_by_type'],
+    theorems=['Fit.C06.C06_size_eq_len', 'Fit.C06.C06_marshal_total', 'Fit.C06.C06_marshal_bytes', 'Fit.C06.C06_unmarshal_marshal_partial', 'Fit.C06.C06_unmarshal_marshal_full_fails', 'Fit.C06.C06_norm_id', 'Fit.C06.C06_norm_bool', 'Fit.C06.C06_norm_string', 'Fit.C06.C06_norm_strings', 'Fit.C06.C06_unmarshal_guard', 'Fit.C06.C06_unmarshal_no_panic', 'Fit.C06.C06_unmarshal_err_iff', 'Fit.C06.C06_tag', 'Fit.C06.C06_no_cross_type', 'Fit.C06.C06_any_roundtrip', 'Fit.C06.C06_align_by_type',
+              # tie by translation (FitProps/C06Go2Lean.lean, notes/go2lean.md)
+              'Fit.C06.C06_go2lean_sizes', 'Fit.C06.C06_go2lean_size', 'Fit.C06.C06_go2lean_valid', 'Fit.C06.C06_go2lean_list', 'Fit.C06.C06_go2lean_spec_size', 'Fit.C06.C06_go2lean_spec_valid', 'Fit.C06.C06_go2lean_spec_list', 'Fit.C06.C06_go2lean_spec_names'],
     families=[dict(name='value', spec=True, prop=True), dict(name='utf8')],
     trusted_base=STD_TRUST + [
+        "translators/go2lean (Go→Lean for a small subset of Go, notes/go2lean.md) re-translates profile/basetype/basetype.go (sizes table, Size, Valid, List, String, FromString) from the current source on every run; the agreement theorems *_go2lean_* state that the translated functions equal the hand-written model functions for all arguments; trusted: the translator's rendering of the subset (go/types computes constants and types) and FitModel/GoPrelude.lean",
         "Generated/Consts.lean is printed on every run by `fitharness consts` from the compiled packages (proto.Type numbers, proto's sizes table observed through Size(), vbits/vshift/vmask recovered from the raw num word of empty slices, base type numbers / sizes / invalid sentinels)",
         "unicode/utf8 (DecodeRune, AppendRune, Valid) is modelled after its documented behaviour in FitModel/Utf8.lean and tied by the family utf8 (every 1- and 2-byte string, all (lead, second byte) pairs with boundary continuation bytes, every Unicode scalar value in the thorough tier)",
         "proto.Any's reflection fallback (named types, pointers) is Go runtime behaviour: modelled as the identity on the underlying kind, tied by the ops `vany`, not proved",
